@@ -22,7 +22,8 @@ LEVEL_TEXT = ('Held on the generated sequences only: for every 1-5 stage sequenc
               'insertion position, for >=3 key permutations, and for every single node (small documents) or random nodes (large ones) as the !unsafe/!new site; '
               'a sample of cases is rebuilt in a fresh interpreter with a different PYTHONHASHSEED. No model is involved.')
 LEVEL_NOTE = ('Trusted: the harness transformations. The idempotence relation excludes the remove-this-key idiom (value-less !del, !del on an empty container or falsy scalar), '
-              'as the statement does. List elements carry no priority/delete tags of their own (baseline outcome unspecified there).')
+              'as the statement does. Priority tags on single list elements: checked strictly where nothing is renumbered (trailing lower-priority run on the newer scalar list), '
+              'elsewhere repeat-last failures that vanish once the element tags are taken off are attributed to the recorded finding; delete tags on elements and tagged container elements are not generated.')
 RULE = ('seeded sequences x relations; non-trivial = at least one priority/!del/!merge tag and two stages sharing a top-level key; distinct = hash of texts')
 ASSUMPTIONS = ['remove-this-key idiom excluded from the repeat-last relation only']
 TIERS = {'quick': {'cases': 1200, 'budget': 70}, 'thorough': {'cases': 40000, 'budget': 900}}
